@@ -160,6 +160,8 @@ def c16(res: CheckResult) -> None:
               list(F.fam_order_seq(res.tier, rng)), ic)
     call_unit(res, "coroutine functions mixing plain and coroutine-function conditions",
               list(F.fam_order_mixed_async(res.tier, rng)), ic)
+    def_unit(res, "invariants accumulated along hierarchies incl. diamonds: the first falsy one in the order base before "
+                  "derived is blamed", list(DF.fam_inv_lists(res.tier, rng)), ic, verdicts=True, rng=rng)
     # a violated lambda condition is re-evaluated once for the message: every operand at most once more
     from icv import exprcheck as E
     cases = E.make_cases(E.fam_typeof(rng), rng, envs_per_expr=0)
